@@ -14,7 +14,7 @@ SHARD = 30
 COQ_TIMEOUT = 1200
 RULE = ("run a generated API script to a generation boundary, then snapshot the solver by SaveSolver+LoadSolver / periodic SetSaveFrequency dump + LoadSolver / "
         "dill dumps+loads / copy.deepcopy, continue the ORIGINAL with a generated tail of operations, then restore the RNG state and run the same tail on the snapshot; "
-        "DE, DE2, Nelder-Mead with bounds, constraints, penalties, monitors; non-trivial = the tail executes at least 2 iterations")
+        "DE, DE2, Nelder-Mead, Powell with bounds, constraints, penalties, monitors, terminations that read the trial solution; non-trivial = the tail executes at least 2 iterations")
 TRUSTED = SC.TRUSTED + ["dill's byte format and file I/O are not modelled: what is compared is the behaviour of the restored object",
                         "the Python and numpy global RNG states are saved/restored by the harness around the snapshot"]
 ASSUMPTIONS = SC.ASSUMPTIONS
@@ -24,7 +24,7 @@ META = dict(
                 "done to other solvers in between; advancing one solver never changes another; each keeps its own faithful counter. That the REAL save/load/deepcopy captures the whole state and shares nothing mutable is "
                 "decided on every run by continuing original and snapshot side by side on /repo (all observables equal after every op; originals untouched) and by replaying the snapshot's run through the machine from the same prefix."),
     level_note=("Trusted: Coq kernel+VM; harness; dill (byte format), file system, global RNG save/restore. Oracle inputs as in C01-C05. Shallow copy.copy is not claimed independent (it shares by definition). "
-                "Powell covered by the differential oracle only."),
+                "Compared after every op: population, energies, best, counters, histories, monitor contents and shapes, limits, trial solution(s) and the termination verdict."),
     design_ref="5/C06")
 
 WORK = os.path.join(os.path.dirname(os.path.dirname(os.path.dirname(os.path.abspath(__file__)))), ".work", "C06")
@@ -32,7 +32,7 @@ WORK = os.path.join(os.path.dirname(os.path.dirname(os.path.dirname(os.path.absp
 
 def generate(rng, n, tier):
     for _ in range(n):
-        c = G.gen_script(rng, nops=(2, 5), p_mid=0.3, solvers=("DE", "DE2", "NM", "POW") if rng.random() < 0.2 else L.SOLVERS)
+        c = G.gen_script(rng, nops=(2, 5), p_mid=0.3, solvers=("DE", "DE2", "NM", "POW") if rng.random() < 0.6 else L.SOLVERS)
         ops = c["ops"]
         # make sure the prefix ends at a generation boundary and limits do not stop everything at once
         ops = [o for o in ops if o["op"] not in ("RequestExit",)]
